@@ -1,6 +1,8 @@
 // C13 harness: OpExtractBasis / OpMaxPart on generated schemas with arbitrary dependency shapes,
 // list orders not aligned with dependencies, incorrect members; all selections of <= 3.
 #include "common.hpp"
+#include <set>
+#include <regex>
 #include "frag.hpp"
 #include "verif_seed.hpp"
 #include "ccl/semantic/RSForm.h"
@@ -26,7 +28,11 @@ static std::string join(const std::vector<uint32_t>& v, const char* sep) {
   return out;
 }
 
-static std::string sourceWire(const RSForm& f) {
+// the dependencies are read from a copy re-analysed from scratch, not from the (possibly cached) graph of the
+// schema the operations run on: what depends on what is a fact about the definitions
+static std::string sourceWire(const RSForm& live) {
+  RSForm f = live;
+  f.UpdateState();
   std::string out;
   for (const auto uid : f.List()) {
     if (!out.empty()) out += ",";
@@ -52,7 +58,9 @@ static std::string renameIds(const std::string& text, const std::map<std::string
 }
 
 // oracles on the implementation's result: closed, order preserved, status/type preserved
-static void judge(const RSForm& src, const RSForm& res) {
+static void judge(const RSForm& live, const RSForm& res) {
+  RSForm src = live;
+  src.UpdateState();
   std::map<std::string, std::string> old2new;
   for (const auto uid : res.List()) if (src.Contains(uid)) old2new[src.GetRS(uid).alias] = res.GetRS(uid).alias;
   // order: result list is a subsequence of the source list
@@ -82,7 +90,22 @@ static void judge(const RSForm& src, const RSForm& res) {
       if (renameIds(typeStr(a), old2new) != typeStr(b)) { bad = src.GetRS(uid).alias + "_type_" + typeStr(a) + "_" + typeStr(b); break; }
     }
     for (auto& c : bad) if (c == ' ') c = '_';
-    emit("c13 chk statustype", bad.empty() ? "1" : "0:" + bad);
+    // recorded finding: the result re-issues aliases, so a mention that resolved to NOTHING in the source can be
+    // captured by a constituent of the result; results in which that happens are judged under their own op name
+    bool captured = false;
+    {
+      static const std::regex id("[XCSADFTP][0-9]+");
+      std::set<std::string> srcAliases, resAliases;
+      for (const auto uid : src.List()) srcAliases.insert(src.GetRS(uid).alias);
+      for (const auto uid : res.List()) resAliases.insert(res.GetRS(uid).alias);
+      for (const auto uid : res.List()) {
+        if (!src.Contains(uid)) continue;
+        const auto& def = src.GetRS(uid).definition;
+        for (auto it = std::sregex_iterator(def.begin(), def.end(), id); it != std::sregex_iterator(); ++it)
+          if (!srcAliases.count(it->str()) && resAliases.count(it->str())) captured = true;
+      }
+    }
+    emit(captured ? "c13 chk statustype-captured" : "c13 chk statustype", bad.empty() ? "1" : "0:" + bad);
   }
 }
 
@@ -145,6 +168,24 @@ static void oneSchema(vh::Rng& rng, bool general) {
     auto it = f.List().begin(); const int pos = rng.range(0, n);
     for (int j = 0; j < pos; ++j) ++it;
     f.MoveBefore(rng.pick(uids), it);
+  }
+  // the source may be reached by an editing history: incremental edits right before the extraction
+  // (renames with and without substitution, definition edits) - no batch operation afterwards
+  if (rng.chance(1, 2)) {
+    const int edits = rng.range(1, 3);
+    for (int k = 0; k < edits; ++k) {
+      const auto uid = rng.pick(uids);
+      const int r = rng.range(0, 3);
+      if (r <= 1) {
+        const auto& rs = f.GetRS(uid);
+        const std::string letter(1, rs.alias.at(0));
+        f.SetAliasFor(uid, letter + std::to_string(rng.range(1, 9)), r == 0);
+      } else if (r == 2 && !IsBaseSet(f.GetRS(uid).type)) {
+        f.SetExpressionFor(uid, general ? rng.pick(gdefs) : rng.pick(names) + UNION + rng.pick(names));
+      } else {
+        f.SetConventionFor(uid, "note");
+      }
+    }
   }
   emit("c13 source " + sourceWire(f), "ok");
   // all selections of size 1, and of size 2..3 (sampled when large)
